@@ -7,7 +7,9 @@ str(C) == str(B)); name/description comments are attached to the right filter.
 """
 from __future__ import annotations
 
+import os
 import random
+import tempfile
 
 from .. import factlab as fl, filtgen, rsieve
 from ..core import Result, split
@@ -17,8 +19,9 @@ LEVEL = "exploration"
 RULE = ("sets reached by random histories (add/update/rename/replace with description/"
         "disable/enable/move/remove, 2-10 operations) over a pool of rich names (non-ASCII, "
         "'#', ':', spaces inside), descriptions (absent, empty, text, non-ASCII, with '#'), "
-        "benign and soft values (commas, brackets, non-ASCII; quotes/backslashes are C06's), "
-        "default and two custom marker-prefix pairs. Non-trivial = the set has at least one "
+        "benign and soft values (commas, brackets, non-ASCII, CRLF/LF inside a value; quotes/backslashes are C06's), "
+        "default and custom marker-prefix pairs; the saved text is read back through parse(bytes), "
+        "parse(str) and parse_file in rotation. Non-trivial = the set has at least one "
         "filter and its rendering parses; distinct = distinct rendered texts.")
 ASSUMPTIONS = [
     "names/descriptions: single-line, no marker prefix inside, not surrounded by white space",
@@ -26,9 +29,11 @@ ASSUMPTIONS = [
     "if the rendering of A itself does not parse the case is C06's and only counted here",
 ]
 FLOORS = {
-    "quick": {"reloads": 10000, "reloads-with-disabled": 2000,
+    "quick": {"reloads": 10000, "reloads-with-disabled": 2000, "reloads-via-file": 3000,
+              "reloads-with-CR-in-text": 1000,
               "reloads-with-description": 2000, "reloads-custom-prefix": 2000},
-    "thorough": {"reloads": 150000, "reloads-with-disabled": 30000,
+    "thorough": {"reloads": 150000, "reloads-with-disabled": 30000, "reloads-via-file": 40000,
+                 "reloads-with-CR-in-text": 15000,
                  "reloads-with-description": 30000, "reloads-custom-prefix": 30000},
 }
 SHARD_TIMEOUT = {"quick": 600, "thorough": 3000}
@@ -47,10 +52,22 @@ def plan(tier, seed):
             for i, (s, e) in enumerate(split(n, k))]
 
 
+VIA = {"via": "bytes", "tmp": None}
+
+
 def reload(text, prefixes):
+    """parse the saved text through the entry point selected for this case (a saved
+    script is normally read back with parse_file) and load it"""
     p = lab.sl_parser.Parser()
     data = text.encode("utf-8")
-    o = lab.parse(data, parser=p)
+    if VIA["via"] == "file" and VIA["tmp"]:
+        with open(VIA["tmp"], "wb") as f:
+            f.write(data)
+        o = lab.parse(data, parser=p, via_file=VIA["tmp"])
+    elif VIA["via"] == "str":
+        o = lab.parse(text, parser=p)
+    else:
+        o = lab.parse(data, parser=p)
     if o.verdict() is not True:
         return None, o
     b = fl.FiltersSet("reloaded", prefixes[0], prefixes[1])
@@ -83,6 +100,9 @@ def check(fs, prefixes, res: Result, witness):
         res.count("skipped:rendering-rejected(C06)")
         return
     res.count("reloads")
+    res.count("reloads-via-" + VIA["via"])
+    if "\r" in s1:
+        res.count("reloads-with-CR-in-text")
     res.case(s1, nontrivial=bool(fs.filters))
     if any(not f["enabled"] for f in fs.filters):
         res.count("reloads-with-disabled")
@@ -135,8 +155,20 @@ def check(fs, prefixes, res: Result, witness):
 
 
 def run_shard(tier, shard, res: Result):
+    tmp = tempfile.NamedTemporaryFile(prefix="rv-c11-", suffix=".sieve", delete=False)
+    tmp.close()
+    VIA["tmp"] = tmp.name
+    try:
+        _run_shard(tier, shard, res)
+    finally:
+        os.unlink(tmp.name)
+        VIA["tmp"] = None
+
+
+def _run_shard(tier, shard, res: Result):
     rng = random.Random(shard["rs"])
     for i in range(shard["n"]):
+        VIA["via"] = ("bytes", "str", "file")[i % 3]
         prefixes = rng.choice(PREFIXES)
         vkind = rng.choice(["benign", "soft"])
         names = rng.sample(NAMES, 3)
